@@ -4,8 +4,8 @@ CONSTANTS
   Closers = {"c1", "c2"}
   NEvents = 2
   Cap = 1
-  Locked = FALSE
-  CloseOnCtxDone = TRUE
-INVARIANTS NoPanic
+  Locked = TRUE
+  CloseOnCtxDone = FALSE
+INVARIANTS AllCompleted
 
 CHECK_DEADLOCK FALSE
